@@ -100,13 +100,15 @@ CLAIMED = {
         text=("Seeded deterministic simulation of 1-3 processes sharing one cache directory: "
               "crash or errno fault at a seeded file-system step of storing/loading a module "
               "(every step kind is reached and counted), two writers interleaved under PCT, "
-              "restarts, and pairs of configurations differing in exactly one compilation input. "
+              "restarts, and pairs of configurations differing in exactly one compilation input "
+              "(options, near-equal bodies, file names and extensions, directories, process builtins, add-on versions, "
+              "and option values that only their identity describes - the simulator owns id() and the per-process token). "
               "Oracle: every outcome equals the no-cache reference; every final-named entry is a "
               "complete hand-over. Single-writer crash placement is near-complete per template; "
               "two-writer interleavings are sampled - evidence, not proof."),
         design_ref="DESIGN.md 3.5",
         note=("Process-crash durability model (kill -9), not power loss. Process boundary is a stub "
-              "(threads with per-process module table and lock). py_compile and module import are atomic steps. "
+              "(threads with per-process module table and lock). py_compile is performed step by step (open, write, replace), module import is one step. "
               "Trusted: the no-cache (MemoryLoader) path as reference."),
         technique="deterministic simulation: simulated processes + crash/errno fault injection at file-system seam, PCT schedules, observer processes on snapshots",
     ),
